@@ -1275,6 +1275,14 @@ fn sample_of<T: Clone>(rng: &mut Rng, xs: &[T], n: usize) -> Vec<T> {
 
 fn main() {
     let args = Args::parse();
+    if let Some(n) = args.extra.get("probe-depth").and_then(|s| s.parse::<usize>().ok()) {
+        // child mode: native stack use of the recursive-descent parser / matcher / drop on n nested parentheses
+        let s = format!("{}1{}", "(".repeat(n), ")+".repeat(n));
+        let p = HopPatternPolicy::parse(&s);
+        let ok = p.as_ref().map(|p| p.matches(&[Hop { isd: 1, asn: 1, ing: 0, eg: 0 }.to_impl()])).unwrap_or(false);
+        drop(p);
+        std::process::exit(if ok { 0 } else { 3 });
+    }
     quiet_panics();
     let mut rng = Rng::new(args.seed);
     let thorough = args.thorough();
@@ -1382,6 +1390,17 @@ fn main() {
     for _ in 0..args.scale(2500, 60000) {
         let s = rand_lex_string(&mut rng);
         cx.lexer(&s, "lexer");
+    }
+
+    // ---- 3b. ParseError::report on inputs with multi-byte characters around the error ---------------
+    for _ in 0..args.scale(600, 20000) {
+        let pre = rng.below(30) as usize;
+        let post = rng.below(30) as usize;
+        let filler = |rng: &mut Rng, n: usize| -> String { (0..n).map(|_| *rng.pick(&[' ', ' ', '1', ' ', '\t'])).collect() };
+        let bad = *rng.pick(&["&", "!", ")", "x", "1-é", "(", "| |", "1 ) 2"]);
+        let tail = *rng.pick(&["é", "€", "𝄞", "éé€", ""]);
+        let s = format!("{}{}{}{}", filler(&mut rng, pre), bad, filler(&mut rng, post), tail);
+        cx.pattern(&s, None, &[], "parse-error-report");
     }
 
     // ---- 4. parser: all token strings up to N tokens -----------------------------------------------
@@ -1622,7 +1641,7 @@ fn main() {
             let mut cur = (rng.range(1, 3) as u16, *rng.pick(&[AS1, AS2, AS3]));
             for j in 0..n {
                 // interfaces 1..: (first), then pairs of the same AS; sometimes break the pairing
-                if j % 2 == 1 && !rng.chance(1, 12) {
+                if (j % 2 == 1 && !rng.chance(1, 12)) || (j % 2 == 0 && j > 0 && rng.chance(1, 8)) {
                     cur = (rng.range(1, 3) as u16, *rng.pick(&[AS1, AS2, AS3, 7]));
                 }
                 l.push((cur.0, cur.1, rng.below(5) as u16));
@@ -1643,6 +1662,28 @@ fn main() {
                     cx.rep.spec_fail("C16:path-allowed-wiring", "path_allowed differs from matches(hops_from_path(path))", json!({"interfaces": format!("{l:?}")}));
                 }
             }
+        }
+    }
+
+    // ---- 8. native stack depth of parser / matcher / drop (runtime resource, outside the model) ------
+    if let Ok(exe) = std::env::current_exe() {
+        let mut last_ok = 0usize;
+        let mut first_bad: Option<(usize, String)> = None;
+        for n in [100usize, 1000, 5000, 20000, 100000] {
+            match std::process::Command::new(&exe).args(["--probe-depth", &n.to_string()]).output() {
+                Ok(o) if o.status.code() == Some(0) => last_ok = n,
+                Ok(o) => {
+                    first_bad = Some((n, format!("{:?}", o.status)));
+                    break;
+                }
+                Err(_) => break,
+            }
+        }
+        cx.rep.hit_n("nesting depth parsed+matched+dropped in a child process (main thread stack)", last_ok as u64);
+        if let Some((n, st)) = first_bad {
+            cx.rep.notes.push(format!("stack probe: {n} nested parentheses end the child process with {st} (largest passing probe {last_ok}); native stack depth is outside the model"));
+        } else {
+            cx.rep.notes.push(format!("stack probe: up to {last_ok} nested parentheses parse, match and drop without exhausting the main-thread stack"));
         }
     }
 
